@@ -76,7 +76,7 @@ class C05(Check):
                 op = {'task': t, 'm': mname, 'p': p['name'], 'kind': kind, 'tok': tok,
                       'dt': rng.choice([0, 0, 0, 0.01, 0.06, 0.3, 6.0])}
                 if kind in ('read_ok', 'write', 'assign'):
-                    op['v'] = dtgen.valid_wire(rng, p['di'])
+                    op['v'] = dtgen.valid_wire(rng, p['di'], surrogates=kind != 'write')
                 if kind == 'write':
                     op['ret'] = rng.choice(['same', 'none', 'other'])
                     if op['ret'] == 'other':
